@@ -62,8 +62,18 @@ HELPERS = {}        # private module-level / nested helper name -> {"returns_own
                     # (filled by analyse(): such a helper is judged at its CALL SITES, see _private_helper)
 
 
+def _helper_name(call):
+    """name under which a private helper is called: _f(...) or obj._m(...)"""
+    if isinstance(call, ast.Call):
+        if isinstance(call.func, ast.Name):
+            return call.func.id
+        if isinstance(call.func, ast.Attribute) and call.func.attr.startswith("_") and not call.func.attr.startswith("__"):
+            return call.func.attr
+    return None
+
+
 def _call_returns_owned(e):
-    return isinstance(e, ast.Call) and isinstance(e.func, ast.Name) and HELPERS.get(e.func.id, {}).get("returns_owned", False)
+    return HELPERS.get(_helper_name(e), {}).get("returns_owned", False)
 
 
 def _is_fresh_expr(e, fresh_names):
@@ -200,11 +210,16 @@ def analyse_function(qual, cls, fn):
             if not receiver_ok(recv):
                 problems.append(f"line {n.lineno}: in-place .{n.func.attr}() on {ast.unparse(recv)}, not a fresh local")
         # calls of private helpers that change one of their parameters in place: the argument must be a fresh local here
-        if isinstance(n, ast.Call) and isinstance(n.func, ast.Name) and HELPERS.get(n.func.id, {}).get("mutates"):
-            for k in HELPERS[n.func.id]["mutates"]:
-                if k < len(n.args) and not isinstance(n.args[k], ast.Starred) and not receiver_ok(n.args[k]) \
-                        and not _is_fresh_expr(n.args[k], fresh_names):
-                    problems.append(f"line {n.lineno}: {ast.unparse(n.args[k])} is handed to {n.func.id}(), which changes that argument in place, "
+        hn = _helper_name(n)
+        if hn and HELPERS.get(hn, {}).get("mutates"):
+            off = 1 if isinstance(n.func, ast.Attribute) else 0        # a method's parameter 0 is the receiver
+            for k in HELPERS[hn]["mutates"]:
+                j = k - off
+                if j < 0:
+                    problems.append(f"line {n.lineno}: {hn}() changes its receiver {ast.unparse(n.func.value)} in place")
+                elif j < len(n.args) and not isinstance(n.args[j], ast.Starred) and not receiver_ok(n.args[j]) \
+                        and not _is_fresh_expr(n.args[j], fresh_names):
+                    problems.append(f"line {n.lineno}: {ast.unparse(n.args[j])} is handed to {hn}(), which changes that argument in place, "
                                     "and is not a fresh local")
         # returns of operand-owned lists
         if isinstance(n, ast.Return) and n.value is not None and _is_owned_read(n.value) and \
@@ -235,10 +250,13 @@ def summarise_helper(fn):
         if isinstance(n, ast.Call) and isinstance(n.func, ast.Attribute) and n.func.attr in MUTATORS and \
                 isinstance(n.func.value, ast.Name) and n.func.value.id in params:
             mut.add(params.index(n.func.value.id))
-        if isinstance(n, ast.Call) and isinstance(n.func, ast.Name) and HELPERS.get(n.func.id, {}).get("mutates"):
-            for k in HELPERS[n.func.id]["mutates"]:
-                if k < len(n.args) and isinstance(n.args[k], ast.Name) and n.args[k].id in params:
-                    mut.add(params.index(n.args[k].id))
+        hn = _helper_name(n)
+        if hn and HELPERS.get(hn, {}).get("mutates"):
+            off = 1 if isinstance(n.func, ast.Attribute) else 0
+            for k in HELPERS[hn]["mutates"]:
+                j = k - off
+                if 0 <= j < len(n.args) and isinstance(n.args[j], ast.Name) and n.args[j].id in params:
+                    mut.add(params.index(n.args[j].id))
         if isinstance(n, ast.Return) and n.value is not None and (_is_owned_read(n.value) or _reads_owned(n.value)):
             ret = True
     return {"returns_owned": ret, "mutates": mut}
@@ -251,7 +269,7 @@ def _is_owned_read(e):
 def _private_helper(qual, cls, fn):
     """a module-level or nested function with a private name: not part of the public behaviour by itself - what it does to its
     parameters and what it returns is judged where it is CALLED (the caller's argument may be a fresh local or an operand's list)"""
-    return cls is None and fn.name.startswith("_") and not fn.name.startswith("__")
+    return fn.name.startswith("_") and not fn.name.startswith("__")      # module-level, nested, or a private method
 
 
 def _reads_owned(e):
